@@ -93,6 +93,27 @@ def w1_car_weights(chk, it):
             w = o.v.fields[0]
             chk.obligation('W1/every-instruction-weighs-at-least-1/%s/%d' % (kind, idx), list(s.pc), z3.UGE(w, 1), {},
                            replay=lambda mo, kind=kind: replay_weight(chk, [(kind, [])]), bound='all operand values')
+        # every instruction behind this one is still weighed: the remainder the weigher continues with is the tail right
+        # behind the instruction (jumps are forward and conditional on run-time data, so whatever follows an instruction
+        # can execute; W2 sums the car weights along exactly this chain of remainders)
+        G.reset()
+        st = State()
+        op, args = sym_op(it, kind, 'op')
+        tail = [sym_op(it, 'Noop', 't%d' % i)[0] for i in range(3)]
+        cell = st.alloc(Agg('array', [op] + tail))
+        inputs = dict((str(a), a) for a in args if z3.is_expr(a))
+        for idx, (s, o) in enumerate(it.exec_fn(st, car, [Ptr(cell)])):
+            if isinstance(o, Panic):
+                chk.obligation('PANIC/W1-tail/%s/%d' % (kind, idx), list(s.pc), z3.BoolVal(False), inputs, replay=None, kind='PANIC', describe=str(o))
+                continue
+            try:
+                off, ln = slice_of(it, s, o.v.fields[1])
+                tail_ok = z3.BoolVal(off == 1 and ln == 3)
+            except Inconclusive:
+                tail_ok = z3.BoolVal(False)
+            chk.obligation('W1/the-weigher-continues-with-the-instruction-right-behind/%s/%d' % (kind, idx), list(s.pc), tail_ok, inputs,
+                           replay=lambda mo, kind=kind, args=args: replay_skipped_window(chk, mo, kind, args),
+                           bound='the instruction followed by three more; all operand values')
 
 
 def programs(alphabet, maxlen):
@@ -325,6 +346,24 @@ def replay_steps(chk, model, prog):
     if 'error' in out:
         raise Inconclusive('replay: ' + out['error'])
     return bool(out.get('panicked')) or int(out['steps']) > int(out['weight']), req, out
+
+
+def replay_skipped_window(chk, model, kind, args):
+    """the instruction of the model, jumped over by an earlier branch, with a loop in the window behind it: if the weigher
+    does not weigh that window, the run takes more steps than the program weighs"""
+    inst = prog_json(model, [(kind, args)])[0]
+    mk = lambda v, a: {'variant': v, 'args': [str(x) for x in a]}
+    last = None
+    for body_runs in (3, 40):
+        pj = [mk('PushI', [0]), mk('Bez', [1]), inst, mk('Loop', [body_runs, 1]), mk('Noop', []), mk('Noop', []), mk('Noop', [])]
+        req = {'kind': 'c11_steps', 'program': pj}
+        out = harness.run_replay([req], 'dev')[0]
+        if 'error' in out:
+            raise Inconclusive('replay: ' + out['error'])
+        last = (bool(out.get('panicked')) or int(out['steps']) > int(out['weight']), req, out)
+        if last[0]:
+            return last
+    return last
 
 
 def replay_weigh_time(chk):
